@@ -48,18 +48,19 @@ type c20WireFail struct {
 }
 
 type c20Wire struct {
-	I        int               `json:"i"`
-	Start    bool              `json:"start,omitempty"`
-	Skipped  string            `json:"skipped,omitempty"`
-	Removed  []string          `json:"removed,omitempty"`
-	Replaced []string          `json:"replaced,omitempty"`
-	Trimmed  c20Pkg            `json:"trimmed"`
-	NInc     int               `json:"nInc"`
-	NErr     int               `json:"nErr"`
-	Valid    bool              `json:"valid"`
-	Changed  bool              `json:"changed"`
-	Fails    []c20WireFail     `json:"fails,omitempty"`
-	Shrunk   map[string]c20Pkg `json:"shrunk,omitempty"`
+	I          int               `json:"i"`
+	Start      bool              `json:"start,omitempty"`
+	Skipped    string            `json:"skipped,omitempty"`
+	Removed    []string          `json:"removed,omitempty"`
+	Replaced   []string          `json:"replaced,omitempty"`
+	Trimmed    c20Pkg            `json:"trimmed"`
+	NInc       int               `json:"nInc"`
+	NErr       int               `json:"nErr"`
+	Valid      bool              `json:"valid"`
+	Changed    bool              `json:"changed"`
+	SchemaDiff bool              `json:"schemaDiff,omitempty"`
+	Fails      []c20WireFail     `json:"fails,omitempty"`
+	Shrunk     map[string]c20Pkg `json:"shrunk,omitempty"`
 }
 
 func c20Worker(spec string) {
@@ -90,7 +91,7 @@ func c20Worker(spec string) {
 		emit(c20Wire{I: j.I, Start: true})
 		r := c20CheckPkgOpts(j.Pkg, c20Opts{perDecl: j.PerDecl})
 		w := c20Wire{I: j.I, Skipped: r.skipped, Removed: r.removed, Replaced: r.replaced, Trimmed: r.trimmed,
-			NInc: r.before.nInc, NErr: r.before.nErr, Valid: r.before.valid, Changed: r.changed}
+			NInc: r.before.nInc, NErr: r.before.nErr, Valid: r.before.valid, Changed: r.changed, SchemaDiff: r.schemaDiff}
 		for _, fl := range r.fails {
 			w.Fails = append(w.Fails, c20WireFail{fl.class, fl.what})
 		}
@@ -344,7 +345,7 @@ func c20RunCases(c *Cfg, cases []*c20Case, perDecl bool) {
 }
 
 func c20FromWire(w c20Wire) *c20Result {
-	r := &c20Result{skipped: w.Skipped, removed: w.Removed, replaced: w.Replaced, trimmed: w.Trimmed, changed: w.Changed}
+	r := &c20Result{skipped: w.Skipped, removed: w.Removed, replaced: w.Replaced, trimmed: w.Trimmed, changed: w.Changed, schemaDiff: w.SchemaDiff}
 	r.before.nInc, r.before.nErr, r.before.valid = w.NInc, w.NErr, w.Valid
 	for _, f := range w.Fails {
 		r.fails = append(r.fails, c20Fail{f.Class, f.What})
@@ -370,6 +371,10 @@ func c20Report(c *Cfg, cs *c20Case) {
 	c.Count(fmt.Sprintf("removed-declarations/%s", c20bucket(len(r.removed)+len(r.replaced))))
 	if r.before.nInc > 0 {
 		c.Count("input/has-incomplete-values")
+	}
+	if r.schemaDiff {
+		// same evaluated result, but optional fields / pattern constraints differ
+		c.Count("schema-only-difference/" + fam)
 	}
 	for f := range cs.feats {
 		c.Count("feature/" + f)
@@ -400,7 +405,7 @@ func c20Report(c *Cfg, cs *c20Case) {
 		}
 		f := hit[0]
 		sh := cs.shrunk[f.class]
-		tag := f.class + c20Tag(f.class, sh)
+		tag := f.class + c20TagWhat(f.class, f.what, sh)
 		c.Count("failing/" + tag)
 		c.Direct(false, tag, f.what, map[string]any{
 			"origin": cs.origin, "package": cs.pkg.String(), "minimised": sh.String(),
@@ -427,6 +432,42 @@ func c20bucket(n int) string {
 		return "3-5"
 	}
 	return "6+"
+}
+
+var c20errOnlyRe = regexp.MustCompile(`^\S+: err:[a-z-]+ -> err:[a-z-]+$`)
+
+// c20TagWhat refines c20Tag with what was observed.
+func c20TagWhat(class, what string, p c20Pkg) string {
+	switch class {
+	case "eval-changed":
+		// only the error CLASS at some paths differs (incomplete <-> eval)?
+		if i := strings.Index(what, "differs after trim: "); i >= 0 {
+			items := strings.Split(what[i+len("differs after trim: "):], "; ")
+			all := len(items) > 0
+			for _, it := range items {
+				if !c20errOnlyRe.MatchString(strings.TrimSpace(it)) {
+					all = false
+				}
+			}
+			if all {
+				return "/error-class-only"
+			}
+		}
+		// several marked disjunctions unified at one vertex of the minimised package?
+		if paths, ok := c20flatCollect(p); ok {
+			fc := c20flatCtxShared()
+			for _, cs := range paths {
+				if fc.marked(cs) > 1 {
+					return "/multi-default-vertex"
+				}
+			}
+		}
+	case "not-idempotent":
+		if len(p.Names) > 1 {
+			return "/multifile"
+		}
+	}
+	return c20Tag(class, p)
 }
 
 // c20Tag derives a narrow syntactic class from the MINIMISED failing package: which
@@ -467,9 +508,9 @@ func c20Tag(class string, p c20Pkg) string {
 // ---- generated packages ---------------------------------------------------------------
 
 func c20Generated(c *Cfg, r *Rng) {
-	n := c.Pick(1500, 30000)
+	n := c.Pick(1500, 10000)
 	if c.Focus {
-		n = c.Pick(3000, 30000)
+		n = c.Pick(3000, 10000)
 	}
 	batch := 500
 	for done := 0; done < n; done += batch {
@@ -497,7 +538,7 @@ func c20Seeds(c *Cfg, r *Rng) {
 			}
 		}
 		cases = append(cases, &c20Case{origin: "seed:" + s.name, pkg: p, feats: map[string]bool{"seed-unmodified": true}})
-		nm := c.Pick(6, 60)
+		nm := c.Pick(6, 25)
 		for k := 0; k < nm; k++ {
 			sub := r.Sub()
 			q, ok := c20MutateValues(sub, p, 1+sub.Intn(3))
